@@ -35,6 +35,14 @@ CLAIMED = {
          "Machine-checked proof (Coq 8.16): for EVERY method-name string the in-process router runs a handler only for that handler's own name (with or without the leading slash) and kind, runs it for every registered name, answers Unimplemented otherwise and never indexes out of range; for every absolute base path and plain service/method segments client and server compute the same joined path and distinct (service, method) pairs give distinct paths. Over HTTP names with empty or dot segments are normalised by path.Join and reach the handler (refuted theorem, known finding F17). Tied to the code by running a name grammar (well-formed, no slash, empty, extra segments, prefixes/suffixes, dot segments, kind swapped, characters needing escaping) against random registries on inprocgrpc and on httpgrpc through Server/WithBasePath and HandleServices for ten base paths on loopback, recording which handler ran, plus path.Join itself against its model.",
          "Trusted: Coq kernel; hand-written models of path.Clean/Join and of ServeMux exact matching (legacy semantics, as in the repository's go 1.18 module), validated by the runs; URL escaping is exercised, not modelled.",
          "7/C12"),
+ "C10": ("Coq theorems over arbitrary context chains (layer lists with a values-blocking layer) + random context expressions, nested in-process calls and metadata mutation probes against the real channel",
+         "Machine-checked proof (Coq 8.16): for ALL caller context chains and ALL keys other than the four the library installs, the handler's context yields nothing (including gRPC's own outgoing-metadata key and an enclosing server's incoming metadata, peer and transport stream); incoming metadata is exactly the caller's outgoing metadata; peer is the in-process peer; the transport stream is the call's own; deadline and cancellation are the caller's; the client-context accessor returns the caller's chain; the same for calls nested inside handlers to any depth. Tied to the code by building random context expressions in Go (custom keys, gRPC keys through their public constructors, deadlines, cancellation, 0-2 enclosing in-process handlers, unary and streaming, with and without channel interceptors), evaluating them on the real channel and reading every key inside the handler, plus in-place mutation of the metadata on both sides.",
+         "Trusted: Coq kernel; context.Context is modelled as a layer list (first match wins; deadline/cancel delegate through every layer); metadata isolation rests on grpc's copying accessors and is observed by mutation probes, not proved.",
+         "7/C10"),
+ "C13": ("Coq theorems over the credential decision and metadata join + exhaustive configuration run over http/https/in-process, unary/stream, with a request-counting RoundTripper and a TLS test server",
+         "Machine-checked proof (Coq 8.16): credentials that require transport security over a non-https base URL fail the call with zero requests issued; a failing credential fails the call with zero requests; otherwise for every key the handler sees the caller's values followed by the credential's; with no credentials nothing changes; the peer carries TLS auth info iff the connection uses TLS and the scheme's default port when none is given. Tied to the code by running the whole finite configuration space {http, https, in-process} x {unary, stream} x {no creds, five credential maps (empty, disjoint, overlapping) x {requiring security or not}, failing credentials} x {peer option or not} against real servers (httptest plain and TLS) with a counting RoundTripper, observing the handler's metadata and peer and the grpc.Peer option.",
+         "Trusted: Coq kernel; metadata.Join/New semantics modelled by hand (credential keys distinct and lower-case); TLS itself is not modelled (connection state is an input).",
+         "7/C13"),
  "C14": ("Coq theorems over tables regenerated from codes.go by a Go-AST translator + exhaustive differential/correspondence run",
          "Machine-checked proof (Coq 8.16): the code->HTTP and HTTP->code tables and the renderer guard are regenerated from /repo's source on every run and the theorems (documented table, error status for every non-OK code over all of Z, the 499 rule, recovery of every uint32 code through the %d/ParseInt/int32 round trip, OK iff 2xx for every integer status) are re-proved against them; the hand-written glue (header precedence) is tied to the code by running real server, real client and loopback end-to-end calls on all codes 0..40, boundary and random uint32 codes, and all HTTP statuses 100..599.",
          "Trusted: Coq kernel; the go2coq translator (differentially tested on every run against the real functions); the model of fmt %d / strconv.ParseInt (lib/Dec.v); net/http's handling of the status header on loopback is observed, not proved.",
